@@ -337,6 +337,8 @@ class Executor:
                 inner = self.update(Val(ty.v, z3.Select(ty.val(v.term),
                                                         sel[1])), rest, new)
                 dom = ty.dom(v.term)
+                if isinstance(ty, C.TDefMap):
+                    dom = z3.Store(dom, sel[1], z3.BoolVal(True))
             else:
                 inner = coerce(new, ty.v)
                 dom = z3.Store(ty.dom(v.term), sel[1], z3.BoolVal(True))
@@ -475,7 +477,7 @@ class Executor:
             return ('i', z3.If(i < 0, i + ln, i))
         if isinstance(ty, TMap):
             k = coerce(idx, ty.k)
-            if not for_write:
+            if not for_write and not isinstance(ty, C.TDefMap):
                 self.fail(st, z3.Not(z3.Select(ty.dom(bv.term), k.term)),
                           'KeyError')
             return ('k', k.term)
@@ -572,6 +574,16 @@ class Executor:
         if isinstance(node.slice, ast.Slice):
             return self.ev_slice(base, node.slice, st)
         idx = self.ev(node.slice, st)
+        if isinstance(base.ty, C.TDefMap) and not self.specmode:
+            tgt = self.ev_path(node.value, st)
+            if tgt is None:
+                raise OutsideSubset('defaultdict read through a non-path')
+            k = coerce(idx, base.ty.k)
+            ty = base.ty
+            grown = Val(ty, ty.mk(ty.val(base.term),
+                        z3.Store(ty.dom(base.term), k.term, z3.BoolVal(True))))
+            self.write_path(st, tgt[0], tgt[1], grown)
+            base = grown
         return self.subscript(base, idx, st)
 
     def subscript(self, base, idx, st):
@@ -1156,6 +1168,47 @@ class Executor:
             z3.And(0 <= pos(i), pos(i) < lo, idx(pos(i)) == i))))
         return out
 
+    def ev_DictComp(self, node, st):
+        '''{k(x): v(x) for x in <symbolic list>} (one generator, no filter): a Map
+        whose domain is the set of keys produced; for a key produced more than
+        once the last value wins (function `last`: the last index producing it)'''
+        if len(node.generators) != 1 or node.generators[0].ifs:
+            raise OutsideSubset('dict comprehension with filters / nested loops')
+        gen = node.generators[0]
+        src = self.ev(gen.iter, st)
+        if isinstance(src, PyTuple):
+            raise OutsideSubset('dict comprehension over a literal')
+        ty = src.ty
+        if not isinstance(ty, TList):
+            raise OutsideSubset('dict comprehension over %s' % ty)
+        i   = z3.Int(C.fresh_name('di'))
+        n   = ty.len(src.term)
+        sub = st.fork()
+        sub.guards = list(st.guards) + [0 <= i, i < n]
+        self.bind_target(gen.target, Val(ty.elem, z3.Select(ty.arr(src.term), i)), sub)
+        kv = self.ev(node.key, sub)
+        vv = self.ev(node.value, sub)
+        st.pc = sub.pc if len(sub.pc) >= len(st.pc) else st.pc
+        mty = getattr(self, '_expect', None)
+        if not isinstance(mty, TMap):
+            mty = TMap(kv.ty, vv.ty)
+        kv, vv = coerce(kv, mty.k), coerce(vv, mty.v)
+        out  = fresh(mty, 'dcomp')
+        last = z3.Function(C.fresh_name('dlast'), mty.k.sort(), z3.IntSort())
+        u    = z3.Const(C.fresh_name('du'), mty.k.sort())
+        dom, val = mty.dom(out.term), mty.val(out.term)
+        key_at = lambda x: z3.substitute(kv.term, (i, x))
+        val_at = lambda x: z3.substitute(vv.term, (i, x))
+        self.axioms.append(z3.ForAll([u], z3.Select(dom, u) ==
+            z3.And(0 <= last(u), last(u) < n, key_at(last(u)) == u),
+            patterns=[z3.Select(dom, u)]))
+        self.axioms.append(z3.ForAll([u], z3.Implies(z3.Select(dom, u),
+            z3.Select(val, u) == val_at(last(u))), patterns=[z3.Select(val, u)]))
+        self.axioms.append(z3.ForAll([i], z3.Implies(z3.And(0 <= i, i < n),
+            z3.And(last(kv.term) >= i, last(kv.term) < n, z3.Select(dom, kv.term))),
+            patterns=[z3.Select(ty.arr(src.term), i)]))
+        return out
+
     def comp_type(self, node, elt):
         decl = self.spec.get('comps', {}).get(node.lineno - self.fsrc.lines[0])
         if decl is not None:
@@ -1267,6 +1320,13 @@ class Executor:
                 if inner:
                     out.append(z3.Implies(ty.is_some(v.term), z3.And(*inner)))
         elif isinstance(ty, TMap):
+            if isinstance(ty, C.TDefMap):
+                k = z3.Const(C.fresh_name('wfd'), ty.k.sort())
+                dv = z3.Select(ty.val(v.term), k)
+                empty = (ty.v.len(dv) == 0) if isinstance(ty.v, TList) else \
+                        (ty.v.dom(dv) == z3.K(ty.v.k.sort(), z3.BoolVal(False)))
+                out.append(z3.ForAll([k], z3.Implies(
+                    z3.Not(z3.Select(ty.dom(v.term), k)), empty)))
             if _has_list(ty.v) and depth < 3:
                 k = z3.Const(C.fresh_name('wfk'), ty.k.sort())
                 inner = self.wf(Val(ty.v, z3.Select(ty.val(v.term), k)),
@@ -1316,7 +1376,29 @@ class Executor:
                                 % (type(node).__name__, self.cur_line))
         mark = len(self.exits)
         outs = None
-        for prefix, handler in self.spec.get('stmt_effects', {}).items():
+        for prefix, key in self.spec.get('stmt_contracts', {}).items():
+            seg = ast.get_source_segment(self.fsrc.src, node) or ''
+            if seg.startswith(prefix):
+                # a nested statement that is verified as a unit of its own (a
+                # `fragment` spec over its free variables) is used here through
+                # that contract, like a call: requires become obligations, the
+                # modified variables are havocked, ensures are assumed
+                from .calls import call_contract
+                cs = self.reg.get(key)
+                if not cs.get('fragment') or cs['file'] != self.spec['file'] or \
+                   cs['qualname'] != self.spec['qualname']:
+                    raise SpecError('%s is not a fragment of %s' % (key, self.spec['qualname']))
+                call = ast.parse('self.__fragment__(%s)' % ', '.join(
+                                 '%s=%s' % (p_, p_) for p_ in cs['params'])).body[0].value
+                for n_ in ast.walk(call):
+                    ast.copy_location(n_, node)
+                call_contract(self, st, cs, call)
+                self.notes.append('L%d-%d used through the contract of %s' %
+                                  (node.lineno, node.end_lineno, cs['short']))
+                outs = [('next', st, None)]
+                break
+        for prefix, handler in ([] if outs is not None else
+                                self.spec.get('stmt_effects', {}).items()):
             seg = ast.get_source_segment(self.fsrc.src, node) or ''
             if seg.startswith(prefix):
                 # a statement that cannot be modelled (process spawning, file
@@ -1328,6 +1410,19 @@ class Executor:
                 break
         if outs is None:
             outs = m(node, st)
+            # ghost code attached to a statement (spec key `stmt_ghost`): runs
+            # after the real statement on its normal exits and may only write
+            # ghost variables, so the verified statement itself is unchanged
+            for prefix, handler in self.spec.get('stmt_ghost', {}).items():
+                seg = ast.get_source_segment(self.fsrc.src, node) or ''
+                if seg.startswith(prefix):
+                    bad = set(getattr(handler, 'mutates', ())) - set(self.spec.get('ghost', {}))
+                    if bad:
+                        raise SpecError('ghost code for %r writes non-ghost %s' % (prefix, sorted(bad)))
+                    outs = list(outs)
+                    for kind, s2, _ in outs:
+                        if kind == 'next':
+                            handler(self, node, s2)
         # exceptional exits raised while evaluating expressions of this stmt
         new = self.exits[mark:]
         del self.exits[mark:]
@@ -1761,7 +1856,7 @@ def _has_list(ty):
     return False
 
 
-_DERIVED = {'slice', 'cat', 'comp', 'set', 'setupd', 'sorted', 'keys', 'values',
+_DERIVED = {'slice', 'cat', 'comp', 'dcomp', 'set', 'setupd', 'sorted', 'keys', 'values',
             'items', 'removed', 'bulk', 'Y'}
 
 _an_cache = dict()
